@@ -704,6 +704,120 @@ theorem hAllocMsg_spec (s : HState κ ι π ν) (g : Ref) (tids : List Nat)
           rw [this, gil _ (by omega)] at hy
           have := hbr y (itemRefs_itemOfSel hy); omega
 
+theorem Sep.of {s s' : HState κ ι π ν} (hs : Sep s) (hh : s'.heap = s.heap) (hn : s'.next = s.next)
+    (hr : ∀ r, IsRoot s' r → IsRoot s r ∨ ∀ x : Nat, x ∈ footOf s.heap r → x < s.next)
+    (hk : ∀ p ∈ s'.objs, ∀ q ∈ s'.objs, p.2 = q.2 → p.1 = q.1) : Sep s' := by
+  refine ⟨?_, hk⟩
+  intro r h x hx
+  rw [hh] at hx
+  rw [hn]
+  rcases hr r h with h1 | h1
+  · exact hs.closed r h1 x hx
+  · exact h1 x hx
+
+variable (H : HParams κ ι π ν φ ω)
+
+theorem abs_tables (s : HState κ ι π ν) : (abs s).tables = s.tables.map fun p => (p.1, derefGroup s.heap p.2) := rfl
+theorem abs_compiled (s : HState κ ι π ν) (c : Nat) :
+    (abs s).compiled c = (s.compiled c).map fun p => (p.1, derefComp s.heap p.2) := rfl
+theorem abs_objs (s : HState κ ι π ν) : (abs s).objs = s.objs.map fun p => (p.1, derefMsg s.heap p.2) := rfl
+
+/-- the table-group stage: same plumbing on references as `Cache.stageTables` on values -/
+theorem hStageTables_spec (s : HState κ ι π ν) (v : State κ GroupV CompV ι (MsgV π) ν) (k : κ)
+    (hs : Sep s) (hv : Sim s v) :
+    Sep (hStageTables H s k).1 ∧ Sim (hStageTables H s k).1 (stageTables H.toParams v k).1 ∧
+    Keeps s (hStageTables H s k).1 ∧ (hStageTables H s k).1.objs = s.objs ∧
+    (hStageTables H s k).1.compiled = s.compiled ∧
+    (match (hStageTables H s k).2 with
+     | .error e => (stageTables H.toParams v k).2 = .error e
+     | .ok g => (stageTables H.toParams v k).2 = .ok (derefGroup (hStageTables H s k).1.heap g) ∧
+         ∃ p ∈ (hStageTables H s k).1.tables, p.2 = g) := by
+  have hvt := hv.tables
+  rw [abs_tables] at hvt
+  unfold hStageTables stageTables tableGet
+  rw [hvt, lookup_mapV]
+  cases hl : s.tables.lookup k with
+  | some g =>
+    simp only [Option.map_some]
+    refine ⟨hs, ⟨?_, hv.compiled, hv.objs⟩, Keeps.refl s, (by first | rfl | trivial), (by first | rfl | trivial), (by first | rfl | trivial), ⟨(k, g), lookup_mem' hl, rfl⟩⟩
+    show s.tables.map _ = (abs s).tables
+    rfl
+  | none =>
+    simp only [Option.map_none, List.length_map]
+    -- the eviction loop on references and on values
+    obtain ⟨r, hr⟩ : ∃ r, r = (if H.limit ≤ s.tables.length then popLoop (s.tables.length + 1 - H.limit) s.tables else (s.tables, false)) := ⟨_, rfl⟩
+    have hrv : (if H.toParams.limit ≤ s.tables.length then
+          popLoop (s.tables.length + 1 - H.toParams.limit) (s.tables.map fun p => (p.1, derefGroup s.heap p.2))
+        else (s.tables.map fun p => (p.1, derefGroup s.heap p.2), false)) =
+        (r.1.map fun p => (p.1, derefGroup s.heap p.2), r.2) := by
+      show (if H.limit ≤ _ then _ else _) = _
+      rw [hr]
+      by_cases hlim : H.limit ≤ s.tables.length
+      · simp only [hlim, if_true]; exact popLoop_mapV _ _ _
+      · simp only [hlim, if_false]
+    rw [hrv, ← hr]
+    have hsub : ∀ p ∈ r.1, p ∈ s.tables := by
+      intro p hp
+      rw [hr] at hp
+      by_cases hlim : H.limit ≤ s.tables.length
+      · simp only [hlim, if_true] at hp; exact (popLoop_spec _ _).1.subset hp
+      · simp only [hlim, if_false] at hp; exact hp
+    -- the state with the evicted entries gone
+    have hs0 : Sep ({ s with tables := r.1 } : HState κ ι π ν) := by
+      refine Sep.of hs rfl rfl ?_ hs.keyOfRoot
+      intro x hx
+      left
+      rcases hx with ⟨p, hp, e⟩ | h2
+      · exact Or.inl ⟨p, hsub p hp, e⟩
+      · exact Or.inr h2
+    have hv0 : Sim ({ s with tables := r.1 } : HState κ ι π ν) { v with tables := r.1.map fun p => (p.1, derefGroup s.heap p.2) } :=
+      ⟨rfl, hv.compiled, hv.objs⟩
+    cases hr2 : r.2 with
+    | true =>
+      simp only [if_true]
+      exact ⟨hs0, hv0, Keeps.refl _, (by first | rfl | trivial), (by first | rfl | trivial), (by first | rfl | trivial)⟩
+    | false =>
+      simp only [Bool.false_eq_true, if_false]
+      show _ ∧ _ ∧ _ ∧ _ ∧ _ ∧ _
+      have hlg : H.toParams.loadGroup k = (H.loadFile k).map mkGroupV := rfl
+      rw [hlg]
+      cases hf : H.loadFile k with
+      | error e => exact ⟨hs0, hv0, Keeps.refl _, (by first | rfl | trivial), (by first | rfl | trivial), (by first | rfl | trivial)⟩
+      | ok f =>
+        simp only [Except.map]
+        obtain ⟨hk, ht, hc, ho, hd, hfoot⟩ := hLoad_spec ({ s with tables := r.1 } : HState κ ι π ν) f
+        obtain ⟨l, hl'⟩ : ∃ l, l = hLoad ({ s with tables := r.1 } : HState κ ι π ν) f := ⟨_, rfl⟩
+        rw [← hl'] at hk ht hc ho hd hfoot ⊢
+        have hs1 : Sep l.1 := sep_keeps hs0 hk ht hc ho
+        have ea : abs l.1 = abs ({ s with tables := r.1 } : HState κ ι π ν) := abs_keeps hs0 hk ht hc ho
+        refine ⟨?_, ⟨?_, ?_, ?_⟩, hk, ho, hc, ?_, ⟨(k, l.2), by simp, rfl⟩⟩
+        · refine Sep.of hs1 rfl rfl ?_ hs1.keyOfRoot
+          intro x hx
+          rcases hx with ⟨p, hp, e⟩ | h2
+          · simp only [List.mem_append, List.mem_singleton] at hp
+            rcases hp with hp | rfl
+            · exact Or.inl (Or.inl ⟨p, ht ▸ hp, e⟩)
+            · right
+              intro y hy
+              exact (hfoot y (e ▸ hy)).2
+          · exact Or.inl (Or.inr h2)
+        · show _ = (abs _).tables
+          rw [abs_tables]
+          simp only [List.map_append, List.map_cons, List.map_nil, hd]
+          congr 1
+          have := congrArg State.tables ea
+          rw [abs_tables, abs_tables, ht] at this
+          exact this.symm
+        · intro c
+          have := congrFun (congrArg State.compiled ea) c
+          exact (hv.compiled c).trans this.symm
+        · intro key
+          have := congrArg State.objs ea
+          have h2 : (abs ({ l.1 with tables := r.1 ++ [(k, l.2)] } : HState κ ι π ν)).objs = (abs l.1).objs := rfl
+          rw [h2, this]
+          exact hv.objs key
+        · simp only [hd]
+
 end Proc
 
 end Bufr.Heap
